@@ -263,7 +263,7 @@ package terminal
 //@ loop 1 (i int)
 //@   invariant 0 <= i && i <= len(b)
 //@ loop 2 (str string, res []byte, i int)
-//@   invariant 0 <= i && i <= len(b) && len(str) <= len(b) - i && len(res) <= len(b) - len(str)
+//@   invariant 0 <= i && i <= len(b) && len(str) <= len(b) - i && len(res) <= len(b) - len(str) && fresh(res)
 
 //@ closure String$1(ctx *parsley.Context, lrc data.IntMap, pos parsley.Pos) (n parsley.Node, cp data.IntSet, err parsley.Error)
 //@   captures (allowBackquote bool, notFoundErr parsley.NotFoundError, schema interface{})
